@@ -4,10 +4,13 @@
   Property theorems only (helper lemmas: Proofs/Rdb/*.lean).
 -/
 import GunYu.Model.Rdb.Crc64
+import GunYu.Model.Rdb.Value
+import GunYu.Model.Rdb.Replay
 import GunYu.Proofs.Rdb.Crc64
+import GunYu.Proofs.Rdb.Read
 
 namespace GunYu.Props.C03
-open GunYu GunYu.Rdb
+open GunYu GunYu.Rdb GunYu.RedisSem
 
 /-! ## CRC64 and the RESTORE payload footer -/
 
@@ -67,6 +70,111 @@ theorem dump_verifies (rdbVersion : Nat) (h : 6 ≤ rdbVersion) (t : UInt8) (raw
     exact Nat.mod_eq_of_lt (by have := c.isLt; omega)
   simp [v, hm, h]
 
+/-! ## Encodings: strings -/
+
+/-- Every string encoding Redis writes (raw with any length form, 8/16/32-bit
+    integer, LZF-compressed given as any well-formed literal/back-reference
+    list) is read back by `ReadString` as exactly the string it denotes, and
+    exactly its bytes are consumed. -/
+theorem string_roundtrip (s : SE) (rest : Bytes) (h : s.wf) :
+    readString (s.enc ++ rest) = some (s.val, rest) :=
+  readString_enc s rest h
+
+/-- the LZF decompressor inverts the LZF wire format (overlapping back
+    references included) -/
+theorem lzf_roundtrip (ops : List LzfOp) (h : lzfWfFrom 0 ops) :
+    lzfDecompress (lzfEmit ops) (lzfExpand ops).length = some (lzfExpand ops) :=
+  lzfDecompress_emit ops h
+
+/-! ## Encodings: containers -/
+
+/-- a ziplist blob (any entry encodings and integer widths/signs, 1- or 5-byte
+    prevlen, known or unknown (0xFFFF) length) iterates to its entries' values -/
+theorem ziplist_roundtrip (z : ZL) (h : z.wf) : zlAll z.blob = some z.vals := zlAll_blob z h
+
+/-- a listpack blob (every string and integer encoding) yields its entries' values -/
+theorem listpack_roundtrip (es : List LPEntry) (h : lpWf es) :
+    lpAll (lpBlob es) = some (es.map LPEntry.val) := lpAll_blob es h
+
+/-- an intset blob of width 2, 4 or 8 yields its integers in decimal -/
+theorem intset_roundtrip (width : Nat) (vs : List Int) (hw : width = 2 ∨ width = 4 ∨ width = 8)
+    (hl : vs.length < 2 ^ 32) (h : ∀ v ∈ vs, inSigned (8 * width) v) :
+    intsetAll (intsetBlob width vs) = some (vs.map intToDec) := intsetAll_blob width vs hw hl h
+
+/-! ## Expansion round trip
+
+For every value `o` of every string / list / set / sorted-set / hash encoding
+(`ObjE`: raw, integer and LZF strings; linked list, ziplist, quicklist,
+quicklist v2 plain + packed; hash-table set, intset 16/32/64, listpack set;
+skiplist v1/v2, ziplist and listpack sorted sets; hash table, zipmap, ziplist
+and listpack hashes — containers saved raw or LZF-compressed), the commands the
+tool expands the serialization into rebuild exactly the source value when
+replayed into an empty key. Hypotheses are what Redis guarantees of its own
+data: the description is well-formed, the value is not empty, members / fields
+are distinct. -/
+
+theorem expand_roundtrip (x : XCfg) (k : Bytes) (o : ObjE)
+    (hwf : o.wf) (hk : o.kind ≠ .other) (hne : o.nonempty) (hd : o.members.Nodup) :
+    ∃ cmds, execCmd x (pobjOf k o) = some cmds ∧ applyCmds [] cmds = some [(k, o.value, 0)] := by
+  refine ⟨o.cmds k, execCmd_pobjOf x k o hwf hk, ?_⟩
+  unfold ObjE.cmds ObjE.value
+  unfold ObjE.nonempty at hne
+  unfold ObjE.members at hd
+  cases hkind : o.kind with
+  | other => exact absurd hkind hk
+  | str =>
+    cases o with
+    | str s => simp [applyCmds, apply_set, put_nil]
+    | _ => simp [ObjE.kind] at hkind
+  | list =>
+    simp only [hkind] at hne ⊢
+    exact rpush_all k o.elems hne
+  | set =>
+    simp only [hkind] at hne hd ⊢
+    exact sadd_all k o.elems hne hd
+  | zset =>
+    simp only [hkind] at hne hd ⊢
+    exact zadd_all k o.scored hne hd
+  | hash =>
+    simp only [hkind] at hne hd ⊢
+    exact hset_all k o.pairs hne hd
+
+/-- The bytes teed while parsing are exactly the value's serialization
+    (`ReadBuffer` after the key consumes `o.ser`, nothing more, nothing less, and
+    stores it as the parser's buffer), so a RESTORE payload is byte for byte type +
+    serialization + footer. (The chunkable hash table is covered by
+    `hash_unsplit_raw_is_encode` / `chunked_roundtrip`.) -/
+theorem raw_is_encode (cfg : DCfg) (key : SE) (o : ObjE) (rest : Bytes)
+    (hkey : key.wf) (hwf : o.wf) (hk : o.kind ≠ .other) (hh : o.rtype ≠ 4) :
+    ∃ p ls, readBuffer cfg {} o.rtype (key.enc ++ (o.ser ++ rest)) = some (p, ls, rest) ∧
+      p.buf = o.ser ∧ p.key = key.val ∧ p.dump = createValueDump o.rtype o.ser := by
+  refine ⟨pobjOf key.val o, {}, readBuffer_plain cfg key o rest hkey hwf hk hh, rfl, rfl, rfl⟩
+
+/-! ## TTL and database -/
+
+/-- The TTL handed to RESTORE / PEXPIRE realises the source's absolute expiry:
+    `now + ttl = expireAt` while it lies ahead, `1` ms (expires at once) when it
+    is already past, `0` (no expiry) only for keys without one. -/
+theorem ttl_absolute (now expireAt : Nat) :
+    (expireAt = 0 → ttlOf now expireAt = 0) ∧
+    (expireAt ≠ 0 → now < expireAt → now + ttlOf now expireAt = expireAt) ∧
+    (expireAt ≠ 0 → expireAt ≤ now → ttlOf now expireAt = 1) := by
+  unfold ttlOf
+  refine ⟨fun h => by simp [h], fun h0 hlt => ?_, fun h0 hle => ?_⟩
+  · have : ¬ now ≥ expireAt := by omega
+    simp [h0, this]; omega
+  · have : now ≥ expireAt := hle
+    simp [h0, this]
+
+/-- The database an entry is replayed into: the configured target DB if set,
+    else the mapped DB, else the source DB. -/
+theorem replay_db (cfg : RCfg) (origin : Int) :
+    (cfg.targetDb ≠ -1 → mapDb cfg origin = cfg.targetDb) ∧
+    (cfg.targetDb = -1 → ∀ t, cfg.dbMap.find? (fun p => p.1 == origin) = some (origin, t) → mapDb cfg origin = t) ∧
+    (cfg.targetDb = -1 → cfg.dbMap.find? (fun p => p.1 == origin) = none → mapDb cfg origin = origin) := by
+  unfold mapDb
+  refine ⟨fun h => by simp [h], fun h t hf => by simp [h, hf], fun h hf => by simp [h, hf]⟩
+
 /-! Non-vacuity / check values -/
 
 -- CRC-64/Jones("123456789") = 0xe9c6d914c4b8d9ca (Redis crc64.c test vector)
@@ -77,5 +185,32 @@ example : (createValueDump 0 [1, 97]).length = 13 := by decide +kernel
 example : verifyDumpPayload 10 (createValueDump 0 [1, 97]) = true := by decide +kernel
 -- a flipped payload byte is rejected
 example : verifyDumpPayload 10 ((createValueDump 0 [1, 97]).set 2 98) = false := by decide +kernel
+
+/-! Non-vacuity of the encoding theorems: concrete descriptions meeting every hypothesis -/
+
+-- an LZF string with an overlapping back reference: "ab" + 10 bytes copied from 2 back
+example : (SE.lzf .b6 .b6 [.lit [97, 98], .ref 2 10]).wf := by decide
+example : (SE.lzf .b6 .b6 [.lit [97, 98], .ref 2 10]).val = [97,98,97,98,97,98,97,98,97,98,97,98] := by decide
+-- a ziplist with unknown length, a 5-byte prevlen and the negative 24-bit integer -2 (D9, D10)
+def exZl : ZL := { entries := [(false, .i24 (-2)), (true, .s6 [97]), (false, .i4 12)], unknown := true }
+example : exZl.wf := by decide
+example : exZl.vals = [[45, 50], [97], [49, 50]] := by decide
+example : zlAll exZl.blob = some [[45, 50], [97], [49, 50]] := ziplist_roundtrip exZl (by decide)
+-- a hash saved as that ziplist would need an even entry count; a list takes it as it is
+def exList : ObjE := .listZiplist (SE.plain exZl.blob) exZl
+example : exList.wf ∧ exList.kind ≠ .other ∧ exList.nonempty ∧ exList.members.Nodup := by decide
+-- a sorted set in a listpack: member "m" ↦ score token "-3" (13-bit integer), member 7 ↦ "1.5"
+def exZsetLp : List LPEntry := [.s6 [109], .i13 (-3), .u7 7, .s6 [49, 46, 53]]
+def exZset : ObjE := .zsetListpack (SE.plain (lpBlob exZsetLp)) exZsetLp
+example : exZset.wf ∧ exZset.kind ≠ .other ∧ exZset.nonempty ∧ exZset.members.Nodup := by decide
+example : exZset.value = .zset [([109], .b [45, 51]), ([55], .b [49, 46, 53])] := by decide
+-- an intset of width 2 and a quicklist v2 with a plain and a packed node
+def exSet : ObjE := .setIntset (SE.plain (intsetBlob 2 [-32768, 5])) 2 [-32768, 5]
+example : exSet.wf ∧ exSet.kind ≠ .other ∧ exSet.nonempty ∧ exSet.members.Nodup := by decide
+def exQl2 : ObjE := .listQuick2 .b6 [.plain (.int8 (-5)), .packed (SE.plain (lpBlob [.i64 (-1), .s12 [120]])) [.i64 (-1), .s12 [120]]]
+example : exQl2.wf ∧ exQl2.kind ≠ .other ∧ exQl2.nonempty ∧ exQl2.members.Nodup := by decide
+example : exQl2.value = .list [[45, 53], [45, 49], [120]] := by decide
+-- TTL: expiry 1000 ms ahead / already past
+example : ttlOf 5000 6000 = 1000 ∧ ttlOf 5000 4000 = 1 ∧ ttlOf 5000 0 = 0 := by decide
 
 end GunYu.Props.C03
